@@ -32,7 +32,8 @@ load fails.  They fall in two groups.
 * *Depending on the text (and the timestamp configuration) only* — kept here, at the place where the
   Rust code raises them, as `.cut`: number not representable (`p_number`), invalid civil date / time /
   offset / instant out of range (`p_date`, `p_datetime`, `p_offset`, `parse_*`), geo point out of range
-  (`p_geo_uri`).  `Uuid::parse_str` cannot fail on the `8-4-4-4-12` hex text `p_uuid` has just recognised
+  (`p_geo_uri`), account / commodity name rejected by `AccountTreeNode::from` / `Commodity::from`
+  (`acctOk`, `unitCommsOk`: white space inside a name, `-`/`_`/`·` starting a sub-account).  `Uuid::parse_str` cannot fail on the `8-4-4-4-12` hex text `p_uuid` has just recognised
   (the other forms the `uuid` crate accepts — 32 hex digits without hyphens, `{…}`, `urn:uuid:…` — are
   not accepted by `p_uuid`'s grammar, so they need no model).
 * *Depending on `Settings`* (strict mode: unknown account / commodity / tag; audit mode: missing uuid;
@@ -116,6 +117,67 @@ def trimStart (l : List Char) : List Char := l.dropWhile isWhitespace
 
 /-- `str::trim` -/
 def trim (l : List Char) : List Char := trimEnd (trimStart l)
+
+/-! ### parser.rs, account_tree_node.rs: validation of names when a commodity / account is created
+
+`Commodity::from` and `AccountTreeNode::from` validate a name when it is first registered (lax mode) and
+when the charts are read from the configuration — so a name failing them can never be used by an accepted
+journal, whatever the settings: a text-only check.  The grammar already guarantees most of it; what remains
+observable is white space inside a name (U+1680 is an identifier character *and* Unicode white space) and
+`-`, `_`, `·` at the start of a sub-account. -/
+
+/-- parser.rs `illegal_characters` -/
+def illegalCharacters (c : Char) : Bool := c == ':' || isWhitespace c
+
+/-- parser.rs `is_valid_id_start_char` -/
+def isValidIdStartChar (c : Char) : Bool :=
+  !(isDecDigit c || c == ':' || c == '-' || c == '_' || c.toNat == 0xB7 || isWhitespace c)
+
+/-- parser.rs `is_valid_sub_id_start_char`: `c.is_numeric() || is_valid_id_start_char(c)`.  Every Unicode
+    numeric character other than the ASCII digits already satisfies `is_valid_id_start_char`, so
+    `is_numeric` contributes exactly the ASCII digits. -/
+def isValidSubIdStartChar (c : Char) : Bool := isDecDigit c || isValidIdStartChar c
+
+/-- parser.rs `is_valid_id` -/
+def isValidId (l : List Char) : Bool :=
+  match l with
+  | [] => false
+  | c :: _ => isValidIdStartChar c && !(l.any illegalCharacters)
+
+/-- parser.rs `is_valid_sub_id` -/
+def isValidSubId (l : List Char) : Bool :=
+  match l with
+  | [] => false
+  | c :: _ => isValidSubIdStartChar c && !(l.any illegalCharacters)
+
+def joinParts (parts : List (List Char)) : List Char := [':'].intercalate parts
+
+/-- `AccountTreeNode::from(name)` succeeds; the name is given by its components (they contain no `':'`,
+    so `name.split(':')` gives them back) -/
+def atnOk (parts : List (List Char)) : Bool :=
+  (trim (joinParts parts) == joinParts parts) && parts.all (fun p => isValidSubId (trim p))
+
+/-- `AccountTrees::build_account_tree` (after the fix of F18: `AccountTreeNode::from(parent)?`): every
+    ancestor that has to be created is valid (an ancestor that already exists was validated when created) -/
+def ancestorsOk : Nat → List (List Char) → Bool
+  | 0, _ => true
+  | fuel + 1, parts =>
+    if parts.length ≤ 1 then true else atnOk parts.dropLast && ancestorsOk fuel parts.dropLast
+
+/-- the account name checks of `get_or_create_txn_account` -/
+def acctOk (parts : List (List Char)) : Bool := atnOk parts && ancestorsOk parts.length parts
+
+/-- `Commodity::from` for the commodities `handle_posting_value` registers: the posting's own and the one of
+    the closing position (the commodity of an opening position `{..}` is never registered) -/
+def unitCommsOk (u : Option PostUnit) : Bool :=
+  match u with
+  | none => true
+  | some u =>
+    isValidId u.comm.toList &&
+    (match u.closing with
+     | none => true
+     | some (.unitPrice v) => isValidId v.comm.toList
+     | some (.total v) => isValidId v.comm.toList)
 
 /-! ### identifier.rs -/
 
@@ -450,11 +512,12 @@ def pUnit : P PostUnit := fun s =>
   | some (o, cl) => .ok ⟨String.ofList c, o, cl⟩ s
   | none => .ok ⟨String.ofList c, none, none⟩ s
 
-/-- `parse_posting_value`: `number opt(unit)` (`handle_posting_value` is deferred) -/
+/-- `parse_posting_value`: `number opt(unit)`, then `handle_posting_value`, of which the validation of
+    new commodity names is text-only (the rest is deferred) -/
 def parsePostingValue : P (Dec × Option PostUnit) := fun s =>
   (pNumber s).bind fun a s =>
   (opt pUnit s).bind fun u s =>
-  .ok (a, u) s
+  if unitCommsOk u then .ok (a, u) s else .cut
 
 /-! ### txn_posting.rs, txn_postings.rs -/
 
@@ -462,7 +525,8 @@ def optString : Option (List Char) → Option String
   | some l => some (String.ofList l)
   | none => none
 
-/-- `parse_txn_posting` (`handle_posting` is deferred) -/
+/-- `parse_txn_posting`, then `handle_posting`, of which the validation of a new account name is text-only
+    (the rest is deferred) -/
 def parseTxnPosting : P RawPosting := fun s =>
   (space1 s).bind fun _ s =>
   (pMultiPartId s).bind fun acct s =>
@@ -471,22 +535,25 @@ def parseTxnPosting : P RawPosting := fun s =>
   (space0 s).bind fun _ s =>
   (opt pComment s).bind fun c s =>
   (lineEnding s).bind fun _ s =>
-  .ok ⟨toPath acct, v.1, v.2, optString c⟩ s
+  if acctOk acct then .ok ⟨toPath acct, v.1, v.2, optString c⟩ s else .cut
 
 /-- `parse_txn_last_posting` -/
-def parseTxnLastPosting : P (Path × Option String) := fun s =>
+def parseTxnLastPosting : P (List (List Char) × Option String) := fun s =>
   (space1 s).bind fun _ s =>
   (pMultiPartId s).bind fun acct s =>
   (space0 s).bind fun _ s =>
   (opt pComment s).bind fun c s =>
   (lineEnding s).bind fun _ s =>
-  .ok (toPath acct, optString c) s
+  .ok (acct, optString c) s
 
-/-- `parse_txn_postings`: `repeat(1.., posting) opt(last_posting)` (the implicit amount is deferred) -/
+/-- `parse_txn_postings`: `repeat(1.., posting) opt(last_posting)`, then the account of the amount-less
+    posting is created (name validation here, the implicit amount is deferred) -/
 def parseTxnPostings : P (List RawPosting × Option (Path × Option String)) := fun s =>
   (repeat1 parseTxnPosting s).bind fun ps s =>
   (opt parseTxnLastPosting s).bind fun l s =>
-  .ok (ps, l) s
+  match l with
+  | none => .ok (ps, none) s
+  | some (acct, c) => if acctOk acct then .ok (ps, some (toPath acct, c)) s else .cut
 
 /-! ### txns.rs -/
 
